@@ -394,6 +394,21 @@ pub mod tm {
     pub fn clear_fail() {
         unsafe { FAIL_NEXT_ALLOC = false; }
     }
+    /// Concrete choices (a scripted table behaviour: tombstone bits / target slots in order).
+    pub fn script(choices: &[u8], placement: bool, tombstones: bool) {
+        let mut ch = [0u8; 16];
+        let mut i = 0;
+        while i < choices.len() && i < 16 {
+            ch[i] = choices[i];
+            i += 1;
+        }
+        unsafe {
+            CHOICES = ch;
+            CHOICE_IDX = 0;
+            NONDET_PLACEMENT = placement;
+            NONDET_TOMBSTONES = tombstones;
+        }
+    }
     /// Draws the model's nondeterministic choices (placement / tombstones).
     pub fn nondet(placement: bool, tombstones: bool) {
         let ch: [u8; 16] = super::sym::any();
@@ -430,6 +445,7 @@ pub mod tm {
     pub fn nondet(_placement: bool, _tombstones: bool) {
         let _ch: [u8; 16] = super::sym::any();
     }
+    pub fn script(_choices: &[u8], _placement: bool, _tombstones: bool) {}
 }
 /// True when running on the table model (ghost facts about table allocations
 /// are only asserted then).
@@ -581,7 +597,9 @@ pub struct Fp {
 impl Fp {
     /// Field-wise comparison without slice-equality loops.
     pub fn same(&self, o: &Fp) -> bool {
-        let mut ok = self.n == o.n && self.seal == o.seal && self.cur == o.cur && self.max == o.max && self.cap == o.cap && self.len == o.len && self.raw == o.raw;
+        let mut ok = self.n == o.n && self.seal == o.seal && self.cur == o.cur && self.max == o.max && self.cap == o.cap && self.len == o.len;
+        macro_rules! w { ($i:expr) => { ok = ok && self.raw[$i] == o.raw[$i]; }; }
+        w!(0); w!(1); w!(2); w!(3); w!(4); w!(5); w!(6); w!(7); w!(8); w!(9);
         #[cfg(kani)]
         {
             ok = ok && self.words == o.words;
